@@ -95,8 +95,8 @@ func (g *Gen) liveSubs() []string {
 	return out
 }
 
-// GenCfg draws a subscription configuration.
-func (g *Gen) GenCfg(self string) SubCfg {
+// GenCfg draws a configuration for a subscription of the given topic.
+func (g *Gen) GenCfg(topic string) SubCfg {
 	t, p := g.T, g.P
 	c := SubCfg{}
 	if len(p.Filters) > 0 {
@@ -114,6 +114,12 @@ func (g *Gen) GenCfg(self string) SubCfg {
 			c.DLTopic = rapid.SampledFrom(lt).Draw(t, "dltopic")
 			if len(p.Attempts) > 0 {
 				c.MaxAttempts = rapid.SampledFrom(p.Attempts).Draw(t, "attempts")
+			}
+			if p.NoSelfDL && c.DLTopic == topic {
+				// the self-loop topology (dead-letter topic == own topic) is excluded
+				// by construction: there the two clauses of C06 contradict each other
+				g.R.M.C["excluded/self-loop-dl"]++
+				c.DLTopic, c.MaxAttempts = "", 0
 			}
 		}
 	}
@@ -283,11 +289,7 @@ func (g *Gen) Next() Op {
 			}
 			name := rapid.SampledFrom(names("s", p.Subs)).Draw(t, "sub")
 			topic := rapid.SampledFrom(lt).Draw(t, "topic")
-			cfg := g.GenCfg(name)
-			if p.NoSelfDL && cfg.DLTopic == topic {
-				m.C["excluded/self-loop-dl"]++
-				cfg.DLTopic, cfg.MaxAttempts = "", 0
-			}
+			cfg := g.GenCfg(topic)
 			return Op{K: k, S: name, T: topic, Cfg: &cfg}
 		case OpDeleteSub:
 			if len(ls) == 0 {
@@ -299,7 +301,7 @@ func (g *Gen) Next() Op {
 				continue
 			}
 			name := rapid.SampledFrom(ls).Draw(t, "sub")
-			cfg := g.GenCfg(name)
+			cfg := g.GenCfg(m.LiveSub(name).Topic.Name)
 			paths := []string{"filter", "retry_policy", "dead_letter_policy", "message_retention_duration", "expiration_policy"}
 			var mask []string
 			for _, pa := range paths {
@@ -309,9 +311,6 @@ func (g *Gen) Next() Op {
 			}
 			if len(mask) == 0 {
 				mask = []string{rapid.SampledFrom(paths).Draw(t, "mask1")}
-			}
-			if s := m.LiveSub(name); s != nil && p.NoSelfDL && cfg.DLTopic == s.Topic.Name {
-				cfg.DLTopic, cfg.MaxAttempts = "", 0
 			}
 			return Op{K: k, S: name, Cfg: &cfg, Mask: mask}
 		case OpPublish:
